@@ -358,7 +358,166 @@ def sibling_guard_rule(chk, prog, rule="SIBG"):
                 n += 1
                 one_sided = (a < b) or (b < a)
                 missing = sorted((a | b) - (a & b))
+                # the same quantity compared with the same constant but a different operator
+                import re as _re
+                def split(c):
+                    m_ = _re.match(r"^(.*) (==|!=|<=|>=|<|>) (.*)$", c)
+                    return (m_.group(1), m_.group(3), m_.group(2)) if m_ else None
+                sa = {split(c)[:2]: split(c)[2] for c in a if split(c)}
+                sb = {split(c)[:2]: split(c)[2] for c in b if split(c)}
+                opdiff = sorted("%s %s/%s %s" % (k[0], sa[k], sb[k], k[1]) for k in sa if k in sb and sa[k] != sb[k])
+                if opdiff:
+                    one_sided = True
+                    missing = opdiff
                 chk.require(not one_sided, rule, "%s/%s/%s" % (rule, fn, sig[1] if sig else "?"), s2["loc"] if a > b else s1["loc"],
                             "sibling key increments in %s test the same conditions on their (mirrored) operands" % fn,
                             "one branch omits %s" % missing)
     return n
+
+
+# --------------------------------------------------------------------------
+# class-set rules: which register classes (bit_mode) a role-anchored guard accepts
+# --------------------------------------------------------------------------
+
+def _mode_classes(prog):
+    mem = prog.enum_members("bit_mode")
+    if not mem:
+        raise AnalysisBroken("enum bit_mode not found")
+    return dict(mem)
+
+
+def _masked_subject(prog, e, mode_mask, defs):
+    """if e denotes `<something> & MODE_MASK` (directly or through a single-assignment local), a key for <something>"""
+    e = strip(e, casts=True)
+    if e.get("kind") == "DeclRefExpr" and ref_name(e) in defs:
+        return _masked_subject(prog, defs[ref_name(e)], mode_mask, defs)
+    if e.get("kind") == "BinaryOperator" and e.get("opcode") == "&":
+        a, b = kids(e)
+        for x, y in ((a, b), (b, a)):
+            if ConstEval(prog).try_eval(y) == mode_mask:
+                return expr_str(strip(x, casts=True))
+    return None
+
+
+def class_set(prog, cond, subject, classes, mode_mask, defs):
+    """classes of `subject & MODE_MASK` for which cond may be true (three-valued: atoms about anything else are unknown)"""
+    ce = ConstEval(prog)
+
+    def ev(e, v):
+        e = strip(e)
+        k = e.get("kind")
+        if k == "UnaryOperator" and e.get("opcode") == "!":
+            r = ev(kids(e)[0], v)
+            return None if r is None else (not r)
+        if k == "BinaryOperator" and e.get("opcode") in ("&&", "||"):
+            a, b = ev(kids(e)[0], v), ev(kids(e)[1], v)
+            if e["opcode"] == "&&":
+                if a is False or b is False:
+                    return False
+                return True if (a is True and b is True) else None
+            if a is True or b is True:
+                return True
+            return False if (a is False and b is False) else None
+        if k == "BinaryOperator" and e.get("opcode") in ("<", ">", "<=", ">=", "==", "!="):
+            l, r = kids(e)
+            sl, sr = _masked_subject(prog, l, mode_mask, defs), _masked_subject(prog, r, mode_mask, defs)
+            cl, cr = ce.try_eval(l), ce.try_eval(r)
+            a = v if sl == subject else cl
+            b = v if sr == subject else cr
+            if (sl == subject or sr == subject) and a is not None and b is not None:
+                return {"<": a < b, ">": a > b, "<=": a <= b, ">=": a >= b, "==": a == b, "!=": a != b}[e["opcode"]]
+            return None
+        return None
+    return {n for n, v in classes.items() if ev(cond, v) is not False}
+
+
+def class_rules(chk, prog, rule="WCLASS"):
+    from .macros import macro_values
+    mm = macro_values(prog, ["MODE_MASK"])["MODE_MASK"]
+    classes = _mode_classes(prog)
+    WIDE = {"reg16", "ext16", "reg32", "ext32", "reg64", "ext64"}
+    lib = prog.lib_functions()
+    n = 0
+    # R2: the function whose result is stored into op_offset returns 1 exactly for the 16/32/64-bit classes
+    feeders = set()
+    for fn, f in lib.items():
+        for m in walk(prog.body(f)):
+            if m.get("kind") == "BinaryOperator" and m.get("opcode") == "=":
+                l, r = strip(kids(m)[0]), strip(kids(m)[1], casts=True)
+                if l.get("kind") == "MemberExpr" and l.get("name") == "op_offset" and r.get("kind") == "CallExpr" and callee_name(r) in lib:
+                    feeders.add(callee_name(r))
+    for fn in sorted(feeders):
+        f = lib[fn]
+        defs = {m["name"]: kids(m)[-1] for m in walk(prog.body(f)) if m.get("kind") == "VarDecl" and kids(m)}
+        for st in walk(prog.body(f)):
+            if st.get("kind") != "IfStmt":
+                continue
+            rets = [m for m in walk(kids(st)[1]) if m.get("kind") == "ReturnStmt" and kids(m)]
+            if not rets or ConstEval(prog).try_eval(kids(rets[0])[0]) != 1:
+                continue
+            cond = kids(st)[0]
+            subjects = set()
+            for m in walk(cond):
+                s_ = _masked_subject(prog, m, mm, defs) if m.get("kind") in ("DeclRefExpr", "BinaryOperator") else None
+                if s_:
+                    subjects.add(s_)
+            for sj in sorted(subjects):
+                # the class set accepted through this subject alone: evaluate with every other subject comparison unknown->False
+                other_false = _only(prog, cond, sj, mm, defs)
+                acc = {nm for nm, v in classes.items() if other_false(v)}
+                n += 1
+                chk.require(acc == WIDE, rule, "%s/width/%s/%s" % (rule, fn, sj), loc_str(st),
+                            "%s selects the wide opcode (w-bit) exactly for 16/32/64-bit register classes of %s" % (fn, sj),
+                            "classes accepted: %s" % sorted(acc))
+    chk.floor("width-class tests", n, 4)
+    # R1: the accumulator short form of xchg (90+rd) exists only for 16/32/64-bit operands
+    m2 = 0
+    for s in key_sites(prog):
+        if s["amount"] == 1 and signature(s["guard"]) == ("name", "xchg"):
+            f = lib[s["fn"]]
+            inner = None
+            for node, parents in walk_with_parents(prog.body(f)):
+                if node is s["node"]:
+                    for p in reversed(parents):
+                        if p.get("kind") == "IfStmt":
+                            inner = kids(p)[0]
+                            break
+            if inner is None:
+                continue
+            subjects = set()
+            for m in walk(inner):
+                s_ = _masked_subject(prog, m, mm, {}) if m.get("kind") == "BinaryOperator" else None
+                if s_:
+                    subjects.add(s_)
+            for sj in sorted(subjects):
+                acc = class_set(prog, inner, sj, classes, mm, {}) - {"mmx64"}
+                m2 += 1
+                chk.require(acc == WIDE, rule, "%s/xchg-acc/%s" % (rule, sj), s["loc"],
+                            "the one-byte xchg-with-accumulator form is chosen only for 16/32/64-bit operands (it has no 8-bit encoding)",
+                            "classes accepted for %s: %s" % (sj, sorted(acc)))
+    chk.floor("xchg accumulator guards", m2, 2)
+
+
+def _only(prog, cond, subject, mm, defs):
+    """predicate v -> may cond be true when `subject` has class v and every other masked subject has class reg8 (0)?"""
+    ce = ConstEval(prog)
+
+    def ev(e, v):
+        e = strip(e)
+        k = e.get("kind")
+        if k == "UnaryOperator" and e.get("opcode") == "!":
+            return not ev(kids(e)[0], v)
+        if k == "BinaryOperator" and e.get("opcode") == "&&":
+            return ev(kids(e)[0], v) and ev(kids(e)[1], v)
+        if k == "BinaryOperator" and e.get("opcode") == "||":
+            return ev(kids(e)[0], v) or ev(kids(e)[1], v)
+        if k == "BinaryOperator" and e.get("opcode") in ("<", ">", "<=", ">=", "==", "!="):
+            l, r = kids(e)
+            sl, sr = _masked_subject(prog, l, mm, defs), _masked_subject(prog, r, mm, defs)
+            a = (v if sl == subject else 0) if sl else ce.try_eval(l)
+            b = (v if sr == subject else 0) if sr else ce.try_eval(r)
+            if a is None or b is None:
+                return True
+            return {"<": a < b, ">": a > b, "<=": a <= b, ">=": a >= b, "==": a == b, "!=": a != b}[e["opcode"]]
+        return True
+    return lambda v: ev(cond, v)
